@@ -1,4 +1,5 @@
 import Chewing.Proofs.EditorFrame
+import Chewing.Proofs.EditorBell
 import Chewing.Model.Candidates
 /-!
 # C06 — Keys are passed through when nothing is being composed; key results are truthful
@@ -327,6 +328,276 @@ theorem bell_frame {e e' : Editor D L} {ev : KeyEvent}
   | panic p => rw [hd] at h; cases h
   | outOfFuel => rw [hd] at h; cases h
 
+/-! ### a bell and everything else the user can observe
+
+`bell_frame` is about the composition editor only.  Below: the WHOLE state value and the whole shared state after a
+key answered *bell*, exactly (`bell_effect`), and the user-visible corollary `bell_keeps_display`: state kind, open
+list (selector, range, page, action), pre-edit, cursor and saved cursors, chosen alternative, options, engine, the
+displayed text and every candidate getter answer as before — for every environment and every state of all four kinds.
+The two things a bell does change are named arm by arm (`Proofs/EditorBell.lean`): the layout's own state after a key
+it rejected (the arms that ask the layout first), and the notification of a failed Ctrl-digit "add phrase". -/
+
+/-- the shared state right after the state machine answered *bell* (before the dictionary flush): the pre-state
+    after the preamble, except `last`, and — only in the named arms — the phonetic buffer and the notification -/
+structure BellEffect (e : Editor D L) (ev : KeyEvent) (sh : Shared D L) : Prop where
+  rest : sh = { preamble e.shared with last := .bell, syl := sh.syl, noticeBuf := sh.noticeBuf }
+  syl : sh.syl = e.shared.syl ∨
+    (bellAsksLayout e.state e.shared ev = true ∧ rejected e.state (layoutAnswer env e.state e.shared ev).1 = true ∧
+      sh.syl = (layoutAnswer env e.state e.shared ev).2)
+  notice : sh.noticeBuf = [] ∨
+    (bellMayNotify e.state ev = true ∧ (sh.noticeBuf = Shared.msgFail ∨ ∃ p, sh.noticeBuf = Shared.msgExists p))
+
+/-- after the state's `next`: *bell* ⇒ the state value is the pre-state's and the shared state is as `BellEffect` says -/
+theorem dispatch_bell {e : Editor D L} {ev : KeyEvent} {sh : Shared D L} {st : St}
+    (h : dispatch env e ev = .ok (sh, st)) (hb : sh.last = .bell) :
+    st = e.state ∧ BellEffect env e ev sh := by
+  unfold dispatch at h
+  split at h
+  · -- Entering
+    rename_i hs
+    cases hr : enteringNext env (preamble e.shared) ev with
+    | ok x =>
+      obtain ⟨sh', t⟩ := x
+      rw [hr] at h; simp only [Outcome.map] at h
+      cases t with
+      | toState s' => simp only [applyTrans] at h; cases h; simp at hb
+      | spin b =>
+        simp only [applyTrans] at h; cases h
+        simp only at hb; subst hb
+        obtain ⟨h1, h2, h3⟩ := bframe_enteringNext env (preamble e.shared) ev sh' _ hr rfl
+        refine ⟨hs.symm, ?_, ?_, ?_⟩
+        · exact congrArg (fun x : Shared D L => { x with last := KB.bell }) h1
+        · rw [hs]; exact h2
+        · rw [hs]; exact h3
+    | panic p => rw [hr] at h; simp [Outcome.map] at h
+    | outOfFuel => rw [hr] at h; simp [Outcome.map] at h
+  · -- EnteringSyllable
+    rename_i hs
+    cases hr : enteringSyllableNext env (preamble e.shared) ev with
+    | ok x =>
+      obtain ⟨sh', t⟩ := x
+      rw [hr] at h; simp only [Outcome.map] at h
+      cases t with
+      | toState s' => simp only [applyTrans] at h; cases h; simp at hb
+      | spin b =>
+        simp only [applyTrans] at h; cases h
+        simp only at hb; subst hb
+        obtain ⟨h1, h2, h3⟩ := bframe_enteringSyllableNext env (preamble e.shared) ev sh' _ hr rfl
+        refine ⟨hs.symm, ?_, ?_, ?_⟩
+        · exact congrArg (fun x : Shared D L => { x with last := KB.bell }) h1
+        · rw [hs]; exact h2
+        · rw [hs]; exact h3
+    | panic p => rw [hr] at h; simp [Outcome.map] at h
+    | outOfFuel => rw [hr] at h; simp [Outcome.map] at h
+  · -- Selecting
+    rename_i s hs
+    cases hr : selectingNext env s (preamble e.shared) ev with
+    | ok x =>
+      rw [hr] at h; simp only [Outcome.map] at h
+      cases ht : x.trans with
+      | toState s' => rw [ht] at h; simp only [applyTrans] at h; cases h; simp at hb
+      | spin b =>
+        rw [ht] at h; simp only [applyTrans] at h; cases h
+        simp only at hb; subst hb
+        obtain ⟨h1, h2⟩ := bsel_selectingNext env s (preamble e.shared) ev x hr ht
+        refine ⟨by rw [h2, hs], ?_, ?_, ?_⟩
+        · rw [h1]
+        · rw [h1]; exact Or.inl rfl
+        · rw [h1]; exact Or.inl rfl
+    | panic p => rw [hr] at h; simp [Outcome.map] at h
+    | outOfFuel => rw [hr] at h; simp [Outcome.map] at h
+  · -- Highlighting
+    rename_i m hs
+    cases hr : highlightingNext env m (preamble e.shared) ev with
+    | ok x =>
+      obtain ⟨sh', m', t⟩ := x
+      rw [hr] at h; simp only [Outcome.map] at h
+      have hf := (highlighting_no_ignore_bell env m (preamble e.shared) ev).elim hr
+      simp only at hf
+      cases t with
+      | toState s' => simp only [applyTrans] at h; cases h; simp at hb
+      | spin b =>
+        simp only [applyTrans] at h; cases h
+        simp only at hb; subst hb; exact absurd rfl hf.2
+    | panic p => rw [hr] at h; simp [Outcome.map] at h
+    | outOfFuel => rw [hr] at h; simp [Outcome.map] at h
+
+/-- **C06, bell, exactly.**  A key answered with *bell* leaves the state value as it was (state kind; for an open
+    list its selector, range, action and page; for a highlight its mark), and the shared state is the pre-state
+    after the preamble (per-key outputs reset, clock ticked) with `last = bell`, up to the two named effects and
+    the flush of a dirty dictionary. -/
+theorem bell_effect {e e' : Editor D L} {ev : KeyEvent}
+    (h : e.processKey env ev = .ok (e', .bell)) :
+    e'.state = e.state ∧
+    ∃ sh, BellEffect env e ev sh ∧
+      e'.shared = if sh.dirty > 0 then { sh with dict := env.reopenFlush sh.dict, dirty := 0 } else sh := by
+  rw [processKey_eq] at h
+  cases hd : dispatch env e ev with
+  | ok x =>
+    obtain ⟨sh, st⟩ := x
+    rw [hd] at h; simp only at h
+    obtain ⟨hl, hst, hsh⟩ := tail_keeps env h (Or.inr rfl)
+    obtain ⟨h1, h2⟩ := dispatch_bell env hd hl
+    exact ⟨by rw [hst, h1], sh, h2, hsh⟩
+  | panic p => rw [hd] at h; cases h
+  | outOfFuel => rw [hd] at h; cases h
+
+/-- the persistent fields after a bell (corollary in field form) -/
+theorem bell_persistent {e e' : Editor D L} {ev : KeyEvent}
+    (h : e.processKey env ev = .ok (e', .bell)) :
+    e'.state = e.state ∧ e'.shared.com = e.shared.com ∧ e'.shared.options = e.shared.options ∧
+    e'.shared.engine = e.shared.engine ∧ e'.shared.nth = e.shared.nth ∧ e'.shared.abbr = e.shared.abbr ∧
+    e'.shared.symSel = e.shared.symSel ∧ e'.shared.commitBuf = [] ∧
+    (e'.shared.dict = e.shared.dict ∨ (0 < e.shared.dirty ∧ e'.shared.dict = env.reopenFlush e.shared.dict)) ∧
+    (e'.shared.syl = e.shared.syl ∨
+      (bellAsksLayout e.state e.shared ev = true ∧ rejected e.state (layoutAnswer env e.state e.shared ev).1 = true ∧
+        e'.shared.syl = (layoutAnswer env e.state e.shared ev).2)) ∧
+    (e'.shared.noticeBuf = [] ∨
+      (bellMayNotify e.state ev = true ∧
+        (e'.shared.noticeBuf = Shared.msgFail ∨ ∃ p, e'.shared.noticeBuf = Shared.msgExists p))) := by
+  obtain ⟨hst, sh, hE, hsh⟩ := bell_effect env h
+  have hr := hE.rest
+  have c1 : sh.com = e.shared.com := by have := congrArg Shared.com hr; exact this
+  have c2 : sh.options = e.shared.options := by have := congrArg Shared.options hr; exact this
+  have c3 : sh.engine = e.shared.engine := by have := congrArg Shared.engine hr; exact this
+  have c4 : sh.nth = e.shared.nth := by have := congrArg Shared.nth hr; exact this
+  have c5 : sh.abbr = e.shared.abbr := by have := congrArg Shared.abbr hr; exact this
+  have c6 : sh.symSel = e.shared.symSel := by have := congrArg Shared.symSel hr; exact this
+  have c7 : sh.commitBuf = [] := by have := congrArg Shared.commitBuf hr; exact this
+  have c8 : sh.dict = e.shared.dict := by have := congrArg Shared.dict hr; exact this
+  have c9 : sh.dirty = e.shared.dirty := by have := congrArg Shared.dirty hr; exact this
+  rw [hsh]
+  by_cases hdirty : sh.dirty > 0
+  · rw [if_pos hdirty]
+    exact ⟨hst, c1, c2, c3, c4, c5, c6, c7, Or.inr ⟨by rw [← c9]; exact hdirty, by simp only [c8]⟩, hE.syl, hE.notice⟩
+  · rw [if_neg hdirty]
+    exact ⟨hst, c1, c2, c3, c4, c5, c6, c7, Or.inl c8, hE.syl, hE.notice⟩
+
+/-- reopening + flushing the dictionary `d` does not change what the conversion engines answer (needed only when a
+    flush is pending, which no key leaves behind) -/
+def ConvFlushNeutralAt (d : D) : Prop :=
+  ∀ k c, env.convert k (env.reopenFlush d) c = env.convert k d c
+
+/-- what the user can observe of the pre-edit, the cursor and an open list, before (`e`) and after (`e'`) -/
+structure SameView (e e' : Editor D L) : Prop where
+  /-- state kind; an open list's selector (phrase range, direction, …), action and page; a highlight's mark -/
+  state : e'.state = e.state
+  /-- symbols, gaps, selections, cursor and saved cursors -/
+  com : e'.shared.com = e.shared.com
+  /-- the chosen conversion alternative -/
+  nth : e'.shared.nth = e.shared.nth
+  options : e'.shared.options = e.shared.options
+  engine : e'.shared.engine = e.shared.engine
+  /-- the conversion and the displayed pre-edit text -/
+  conversion : Shared.conversion env e'.shared = Shared.conversion env e.shared
+  display : Shared.display env e'.shared = Shared.display env e.shared
+  /-- the candidate getters -/
+  pageNo : e'.currentPageNo = e.currentPageNo
+  all : e'.allCandidates env = e.allCandidates env
+  paginated : e'.paginatedCandidates env = e.paginatedCandidates env
+  totalPage : e'.totalPage env = e.totalPage env
+
+/-- **C06, bell, as the user sees it.**  For every environment, every state (all four kinds) and every key answered
+    with *bell*: state kind, open list (selector, range, action, page), pre-edit, cursor, saved cursors, chosen
+    alternative, options and engine are unchanged, `display()` shows the same text and `current_page_no`,
+    `all_candidates`, `paginated_candidates`, `total_page` answer the same.  (If a dictionary flush is pending —
+    `dirty > 0`, which no key leaves behind — the flush must not change lookup / conversion answers.) -/
+theorem bell_keeps_display {e e' : Editor D L} {ev : KeyEvent}
+    (h : e.processKey env ev = .ok (e', .bell))
+    (hfl : 0 < e.shared.dirty → FlushNeutralAt env e.shared.dict ∧ ConvFlushNeutralAt env e.shared.dict) :
+    SameView env e e' := by
+  obtain ⟨hst, hcom, hopt, heng, hnth, _, _, _, hdict, hsyl, _⟩ := bell_persistent env h
+  have hconv : ∀ c, env.convert e'.shared.engine e'.shared.dict c = env.convert e.shared.engine e.shared.dict c := by
+    intro c
+    rcases hdict with hd | ⟨hpos, hd⟩
+    · rw [hd, heng]
+    · rw [hd, heng]; exact (hfl hpos).2 _ c
+  have hlook : ∀ k st, env.lookupAll e'.shared.dict k st = env.lookupAll e.shared.dict k st := by
+    intro k st
+    rcases hdict with hd | ⟨hpos, hd⟩
+    · rw [hd]
+    · rw [hd]; exact (hfl hpos).1 k st
+  have hcv : Shared.conversion env e'.shared = Shared.conversion env e.shared := by
+    unfold Shared.conversion; rw [hconv, hcom, hnth]
+  -- an open list: the arms that ask the layout are not `Selecting` arms, so the phonetic buffer is the same there
+  have hc : ∀ s, e.state = .selecting s →
+      Selecting.candidates env s e'.shared = Selecting.candidates env s e.shared := by
+    intro s hs
+    refine candidates_dict_congr env s ?_ hlook
+    rcases hsyl with h1 | ⟨h1, _⟩
+    · exact h1
+    · rw [hs] at h1; cases h1
+  have h1 : e'.currentPageNo = e.currentPageNo := by unfold Editor.currentPageNo; rw [hst]
+  have h2 : e'.allCandidates env = e.allCandidates env := by
+    unfold Editor.allCandidates; rw [hst]
+    cases hs : e.state <;> first | rfl | simp only [hc _ hs]
+  have h3 : e'.paginatedCandidates env = e.paginatedCandidates env := by
+    unfold Editor.paginatedCandidates; rw [hst]
+    cases hs : e.state <;> first | rfl | simp only [hc _ hs, hopt]
+  have h4 : e'.totalPage env = e.totalPage env := by
+    unfold Editor.totalPage Selecting.totalPage; rw [hst]
+    cases hs : e.state <;> first | rfl | simp only [hc _ hs, hopt]
+  exact ⟨hst, hcom, hnth, hopt, heng, hcv, by unfold Shared.display; rw [hcv], h1, h2, h3, h4⟩
+
+/-- the C-level getters after a bell (corollary) -/
+theorem bell_keeps_capi_getters {e e' : Editor D L} {ev : KeyEvent}
+    (h : e.processKey env ev = .ok (e', .bell))
+    (hfl : 0 < e.shared.dirty → FlushNeutralAt env e.shared.dict ∧ ConvFlushNeutralAt env e.shared.dict) :
+    CApi.currentPage e' = CApi.currentPage e ∧ CApi.choicePerPage e' = CApi.choicePerPage e ∧
+    CApi.totalChoice env e' = CApi.totalChoice env e ∧ CApi.totalPage env e' = CApi.totalPage env e ∧
+    CApi.enumerate env e' = CApi.enumerate env e := by
+  have v := bell_keeps_display env h hfl
+  refine ⟨?_, ?_, ?_, ?_, ?_⟩
+  · unfold CApi.currentPage; rw [v.pageNo]
+  · unfold CApi.choicePerPage; rw [v.options]
+  · unfold CApi.totalChoice; rw [v.all]
+  · unfold CApi.totalPage; rw [v.totalPage]
+  · unfold CApi.enumerate; rw [v.paginated]
+
+/-! #### the phonetic buffer after a bell
+
+The arms that hand the key to the phonetic layout before they bell keep whatever state the layout is in after the
+rejected key.  The editor's code does not undo it, so "the phonetic buffer is unchanged by a bell" is a fact about
+the LAYOUT (it must not change state on a key it rejects), not about the editor: over the model's arbitrary
+environment the unconditional statement is false (`bell_keeps_phonetic_anyLayout_refuted`), and it holds exactly
+under `LayoutQuietAt` (`bell_keeps_phonetic`).  On the shipped layouts the harness oracle checks it on every step
+answered with a bell. -/
+
+/-- the layout, asked by the arm that went on to bell, left its state alone when it rejected this key -/
+def LayoutQuietAt (e : Editor D L) (ev : KeyEvent) : Prop :=
+  bellAsksLayout e.state e.shared ev = true → rejected e.state (layoutAnswer env e.state e.shared ev).1 = true →
+    (layoutAnswer env e.state e.shared ev).2 = e.shared.syl
+
+/-- full statement: a bell never changes the phonetic buffer, whatever the layout -/
+def BellKeepsPhoneticAnyLayout : Prop :=
+  ∀ {D L : Type} (env : Env D L) (e e' : Editor D L) (ev : KeyEvent),
+    e.processKey env ev = .ok (e', .bell) → e'.shared.syl = e.shared.syl
+
+/-- partial statement: … whenever the layout does not change state on the key it rejects -/
+theorem bell_keeps_phonetic {e e' : Editor D L} {ev : KeyEvent}
+    (h : e.processKey env ev = .ok (e', .bell)) (hq : LayoutQuietAt env e ev) :
+    e'.shared.syl = e.shared.syl := by
+  obtain ⟨_, _, _, _, _, _, _, _, _, hsyl, _⟩ := bell_persistent env h
+  rcases hsyl with h1 | ⟨h1, h2, h3⟩
+  · exact h1
+  · rw [h3]; exact hq h1 h2
+
+/-- … and outside the arms that ask the layout (an open list, a highlight, `Entering` in English mode or with a
+    modifier) unconditionally -/
+theorem bell_keeps_phonetic_of_not_asked {e e' : Editor D L} {ev : KeyEvent}
+    (h : e.processKey env ev = .ok (e', .bell)) (hn : bellAsksLayout e.state e.shared ev = false) :
+    e'.shared.syl = e.shared.syl :=
+  bell_keeps_phonetic env h (fun h1 => by rw [hn] at h1; cases h1)
+
+/-- the notification after a bell is empty except after Ctrl + digit in `Entering` -/
+theorem bell_notice_empty {e e' : Editor D L} {ev : KeyEvent}
+    (h : e.processKey env ev = .ok (e', .bell)) (hn : bellMayNotify e.state ev = false) :
+    e'.shared.noticeBuf = [] := by
+  obtain ⟨_, _, _, _, _, _, _, _, _, _, hno⟩ := bell_persistent env h
+  rcases hno with h1 | ⟨h1, _⟩
+  · exact h1
+  · rw [hn] at h1; cases h1
+
 /-- the keys the property names: Enter, Esc, Tab, Backspace, Delete, arrows, Home, End, PageUp, PageDown -/
 def IdleKey (c : Nat) : Prop :=
   c = KC.enter ∨ c = KC.esc ∨ c = KC.tab ∨ c = KC.backspace ∨ c = KC.del ∨ c = KC.left ∨ c = KC.right ∨
@@ -433,5 +704,60 @@ example (e e' : Editor Unit Nat) (_ : pagedEditor.run toyEnv [.key keyGrave, .ke
     e'.currentPageNo = e.currentPageNo ∧ e'.paginatedCandidates toyEnv = e.paginatedCandidates toyEnv :=
   have hk := ignore_keeps_candidates toyEnv h (fun _ _ _ => rfl)
   ⟨hk.1, hk.2.2.1⟩
+
+/-! ### bell: witnesses and non-vacuity -/
+
+/-- a layout that counts the keys it rejects: `H` (code 32) is absorbed, every other key is a key error AND moves
+    the layout state on -/
+def countingEnv : Env Unit Nat :=
+  { toyEnv with keyPress := fun l ev => if ev.code = 32 then (.absorb, 1) else (.keyError, l + 1) }
+
+/-- a key no arm has a use for: no character, no modifiers -/
+def keyNoChar : KeyEvent := { index := 0, code := KC.unknown, unicode := 65533 }
+
+/-- the unconditional statement about the phonetic buffer is false over arbitrary layouts: the counting layout
+    rejects the key (key error), the editor bells and keeps the layout's new state -/
+theorem bell_keeps_phonetic_anyLayout_refuted : ¬ BellKeepsPhoneticAnyLayout := by
+  intro hall
+  have h : (1 : Nat) = 0 := hall countingEnv toyEditor _ keyNoChar rfl
+  cases h
+
+/-- … and that is exactly the excluded class: `LayoutQuietAt` fails there -/
+example : ¬ LayoutQuietAt countingEnv toyEditor keyNoChar := by
+  intro h; have := h rfl rfl; cases this
+
+/-- `Entering`: a key without a character is answered with a bell (layout asked, key rejected) -/
+example : ∃ e', toyEditor.processKey toyEnv keyNoChar = .ok (e', .bell) ∧
+    bellAsksLayout toyEditor.state toyEditor.shared keyNoChar = true ∧ LayoutQuietAt toyEnv toyEditor keyNoChar :=
+  ⟨_, rfl, rfl, fun _ _ => rfl⟩
+
+/-- `EnteringSyllable`: `h` typed, then a key the layout rejects: bell, and `bell_keeps_display` /
+    `bell_keeps_phonetic` apply -/
+example : ∃ e e', toyEditor.run toyEnv [.key { index := 32, code := 32, unicode := 104 }] = .ok e ∧
+    e.state = .enteringSyllable ∧ e.processKey toyEnv keyNoChar = .ok (e', .bell) ∧
+    SameView toyEnv e e' ∧ e'.shared.syl = e.shared.syl := by
+  refine ⟨_, _, rfl, by decide, rfl, ?_, ?_⟩
+  · exact bell_keeps_display toyEnv (ev := keyNoChar) rfl (fun hd => absurd hd (by decide))
+  · exact bell_keeps_phonetic toyEnv (ev := keyNoChar) rfl (fun _ _ => rfl)
+
+/-- an open list on its second page: Shift + `j` is answered with a bell; same list, same page, same candidates -/
+example : ∃ e e', pagedEditor.run toyEnv [.key keyGrave, .key keyRight] = .ok e ∧
+    e.processKey toyEnv { keyJ with mods := { shift := true } } = .ok (e', .bell) ∧
+    e'.currentPageNo = some 1 ∧ e'.paginatedCandidates toyEnv = .ok (some [[8251], [65292]]) := by
+  refine ⟨_, _, rfl, rfl, ?_, ?_⟩ <;> decide
+
+/-- … a digit without a candidate on that page (one candidate per page, page 1 of 3, key `3`) bells too -/
+example : ∃ e e', pagedEditor.run toyEnv [.key keyGrave, .key keyRight] = .ok e ∧
+    e.processKey toyEnv { index := 3, code := 3, unicode := 51 } = .ok (e', .bell) ∧
+    SameView toyEnv e e' ∧ e'.currentPageNo = some 1 := by
+  refine ⟨_, _, rfl, rfl, ?_, ?_⟩
+  · exact bell_keeps_display toyEnv (ev := { index := 3, code := 3, unicode := 51 }) rfl (fun hd => absurd hd (by decide))
+  · decide
+
+/-- Ctrl + 2 on an empty buffer: "add phrase" fails, bell WITH the notification (the one arm of `bellMayNotify`) -/
+example : ∃ e', toyEditor.processKey toyEnv { index := 2, code := 2, unicode := 50, mods := { ctrl := true } } =
+      .ok (e', .bell) ∧ e'.shared.noticeBuf = Shared.msgFail ∧
+    bellMayNotify toyEditor.state { index := 2, code := 2, unicode := 50, mods := { ctrl := true } } = true :=
+  ⟨_, rfl, rfl, rfl⟩
 
 end Chewing.C06
